@@ -45,10 +45,10 @@ ASSUMPTIONS = [
 ]
 
 TSHAPE = (20, 21, 22)
-POS = [(5, 5, 5), (5, 14, 8), (13, 6, 15), (14, 15, 6), (9, 10, 16), (15, 9, 11)]
-DISP = [(1, 0, 0), (0, 1, 0), (0, 0, 1), (-1, 0, 0), (0, -1, 0), (0, 0, -1)]
-KEY = [3, 1, 4, 0, 2, 5]
-KEY2 = [1, 0, 1, 0, 2, 2]
+POS = [(5, 5, 5), (5, 14, 8), (13, 6, 15), (14, 15, 6), (9, 10, 16), (15, 9, 11), (8, 16, 12)]  # the last one only for the extra molecule of the aliasing probes
+DISP = [(1, 0, 0), (0, 1, 0), (0, 0, 1), (-1, 0, 0), (0, -1, 0), (0, 0, -1), (1, 0, 0)]
+KEY = [3, 1, 4, 0, 2, 5, 6]
+KEY2 = [1, 0, 1, 0, 2, 2, 0]
 TILT = (-60.0, 60.0)
 
 
@@ -112,7 +112,7 @@ def molecules(uids):
     pos = np.array([POS[u] for u in uids], dtype=np.float32).reshape(-1, 3)
     feats = pl.DataFrame({"uid": pl.Series(uids, dtype=pl.Int64), "g": pl.Series([u % 2 for u in uids], dtype=pl.Int64),
                           "k": pl.Series([KEY[u] for u in uids], dtype=pl.Int64), "k2": pl.Series([KEY2[u] for u in uids], dtype=pl.Int64)})
-    return Molecules(pos, Rotation.from_matrix(np.stack([ORI[u] for u in uids])) if uids else None, features=feats)
+    return Molecules(pos, Rotation.from_matrix(np.stack([ORI[u % len(ORI)] for u in uids])) if uids else None, features=feats)
 
 
 _TOMO_CACHE = {}
